@@ -4,6 +4,7 @@ import (
 	"go/types"
 	"strings"
 
+	"golang.org/x/tools/go/packages"
 	"golang.org/x/tools/go/ssa"
 )
 
@@ -110,6 +111,8 @@ func runC10(w *World, r *Report) {
 	}
 
 	opTry, opTryPop, opReturn, opRunDefers := opc("Try"), opc("TryPop"), opc("Return"), opc("RunDefers")
+
+	c10LoopsAndTries(w, r, bp, cp, opTryPop, opc("Branch"), opc("Push"), opc("DropToMarker"))
 
 	// ------------------------------------------------------------ R-C10-1
 	push := w.ssaFunc(bp, "Context.callFramePushWithTable")
@@ -594,4 +597,318 @@ func c10Forwards(wrapper, target *ssa.Function) bool {
 	})
 
 	return ok
+}
+
+// ---------------------------------------------------------------------------
+// R-C10-5 / R-C10-6 (added with the repairs e337df74 and c27e01b7).
+
+func c10LoopsAndTries(w *World, r *Report, bp, cp *packages.Package, opTryPop, opBranch, opPush, opDropToMarker int64) {
+	r.Rule("R-C10-5", "leaving a try by a branch closes it: compileBreak and compileContinue reach an emission of TryPop before their Branch, compileTry records the open try before it compiles the body and marks the move to the catch block, and a loop records how many try statements were open when it began", 4)
+	r.Rule("R-C10-6", "stack markers are pushed as often as they are dropped: in the for statement with clauses, the marker of the increment clause is taken out of the stream ahead of the loop's repeat point and pushed again with the increment code; the bare DropToMarker after a for statement is emitted for the range form only", 2)
+
+	fnOf := func(name string) *ssa.Function { return w.ssaFunc(cp, name) }
+
+	emits := func(fn *ssa.Function, op int64, seen map[*ssa.Function]bool) bool {
+		var rec func(f *ssa.Function, depth int) bool
+
+		rec = func(f *ssa.Function, depth int) bool {
+			if f == nil || seen[f] || depth > 3 {
+				return false
+			}
+
+			seen[f] = true
+			found := false
+
+			allInstrs(f, func(in ssa.Instruction) {
+				if emitOf(in) == op {
+					found = true
+				}
+
+				if c, ok := in.(*ssa.Call); ok {
+					if cf := calleeFunction(c.Common()); cf != nil && cf.Pkg == f.Pkg && rec(cf, depth+1) {
+						found = true
+					}
+				}
+			})
+
+			return found
+		}
+
+		return rec(fn, 0)
+	}
+
+	// ---- R-C10-5
+	for _, name := range []string{"Compiler.compileBreak", "Compiler.compileContinue"} {
+		key := "compiler." + name + "|closes the try statements it leaves"
+
+		fn := fnOf(name)
+		if fn == nil {
+			r.Anchor("R-C10-5", "compiler."+name)
+
+			continue
+		}
+
+		// every path to the Branch emission passes a call that (transitively) emits TryPop
+		var branch ssa.Instruction
+
+		allInstrs(fn, func(in ssa.Instruction) {
+			if emitOf(in) == opBranch {
+				branch = in
+			}
+		})
+
+		if branch == nil {
+			r.Anchor("R-C10-5", "Emit(Branch) in "+name)
+
+			continue
+		}
+
+		unwinds := func(in ssa.Instruction) bool {
+			c, ok := in.(*ssa.Call)
+			if !ok {
+				return false
+			}
+
+			cf := calleeFunction(c.Common())
+
+			return cf != nil && cf.Pkg == fn.Pkg && emits(cf, opTryPop, map[*ssa.Function]bool{})
+		}
+
+		if skip := pathFromEntryAvoiding(fn, nil, unwinds, func(in ssa.Instruction) bool { return in == branch }); skip != nil {
+			r.Violate("R-C10-5", key, w.pos(branch.Pos()), "the Branch is emitted on a path that has closed the scopes but not the try statements between this statement and the loop: a try left this way stays armed, and a later, unrelated error runs its catch block or ends in 'stack underflow'")
+		} else {
+			r.Discharge("R-C10-5", key, w.pos(branch.Pos()), "every path to Emit(Branch) passes a call that emits TryPop for the open try statements")
+		}
+	}
+
+	if fn := fnOf("Compiler.compileTry"); fn == nil {
+		r.Anchor("R-C10-5", "compiler.Compiler.compileTry")
+	} else {
+		key := "compiler.Compiler.compileTry|records the open try"
+
+		var stores []*ssa.Store
+
+		allInstrs(fn, func(in ssa.Instruction) {
+			if st, ok := in.(*ssa.Store); ok && isFieldNamed(st.Addr, "openTries") {
+				stores = append(stores, st)
+			}
+		})
+
+		var bodies []ssa.Instruction
+
+		allInstrs(fn, func(in ssa.Instruction) {
+			if c, ok := in.(*ssa.Call); ok && strings.HasSuffix(callID(c.Common()), "Compiler.compileRequiredBlock") {
+				bodies = append(bodies, in)
+			}
+		})
+
+		ok := len(stores) > 0 && len(bodies) > 0
+
+		for _, b := range bodies {
+			dominated := false
+
+			for _, st := range stores {
+				if instrDominates(st, b) {
+					dominated = true
+				}
+			}
+
+			if !dominated {
+				ok = false
+			}
+		}
+
+		if ok {
+			r.Discharge("R-C10-5", key, w.pos(fn.Pos()), "the try is pushed on openTries before its body and its catch block are compiled")
+		} else {
+			r.Violate("R-C10-5", key, w.pos(fn.Pos()), "compileTry compiles the body (or the catch block) without having recorded the try in openTries: a break or continue inside it does not know it is leaving a try")
+		}
+	}
+
+	if fn := fnOf("Compiler.loopStackPush"); fn == nil {
+		r.Anchor("R-C10-5", "compiler.Compiler.loopStackPush")
+	} else {
+		key := "compiler.Compiler.loopStackPush|records the try depth"
+		found := false
+
+		allInstrs(fn, func(in ssa.Instruction) {
+			if st, ok := in.(*ssa.Store); ok && isFieldNamed(st.Addr, "tryDepth") {
+				if derivesFrom(st.Val, func(v ssa.Value) bool { return isFieldNamed(v, "openTries") }, func(id string) bool { return id == "len" }) || lenOf(st.Val) != nil {
+					found = true
+				}
+			}
+		})
+
+		if found {
+			r.Discharge("R-C10-5", key, w.pos(fn.Pos()), "loop.tryDepth = len(openTries)")
+		} else {
+			r.Violate("R-C10-5", key, w.pos(fn.Pos()), "a new loop does not record how many try statements were open when it began")
+		}
+	}
+
+	// ---- R-C10-6
+	isMarkerPush := func(in ssa.Instruction) bool {
+		if emitOf(in) != opPush {
+			return false
+		}
+
+		c := in.(*ssa.Call)
+		if len(c.Call.Args) < 3 {
+			return false
+		}
+
+		sl, ok := c.Call.Args[2].(*ssa.Slice)
+		if !ok {
+			return false
+		}
+
+		marker := false
+
+		allInstrs(in.Parent(), func(i2 ssa.Instruction) {
+			if st, ok := i2.(*ssa.Store); ok {
+				if ia, ok := st.Addr.(*ssa.IndexAddr); ok && ia.X == sl.X {
+					if mi, ok := st.Val.(*ssa.MakeInterface); ok {
+						if n := namedOf(mi.X.Type()); n != nil && n.Obj().Name() == "StackMarker" {
+							marker = true
+						}
+					}
+				}
+			}
+		})
+
+		return marker
+	}
+
+	if fn := fnOf("Compiler.iterationFor"); fn == nil {
+		r.Anchor("R-C10-6", "compiler.Compiler.iterationFor")
+	} else {
+		key := "compiler.Compiler.iterationFor|increment marker inside the loop"
+
+		var target, appendStore, truncate, push ssa.Instruction
+
+		var marks []*ssa.Call
+
+		allInstrs(fn, func(in ssa.Instruction) {
+			c, ok := in.(*ssa.Call)
+			if !ok {
+				return
+			}
+
+			id := callID(c.Common())
+
+			switch {
+			case strings.HasSuffix(id, "Compiler.assignmentTarget"):
+				target = in
+			case strings.HasSuffix(id, "bytecode.ByteCode.Truncate"):
+				truncate = in
+			case strings.HasSuffix(id, "bytecode.ByteCode.Mark"):
+				marks = append(marks, c)
+			case strings.HasSuffix(id, "bytecode.ByteCode.Append"):
+				// the increment store code: the value assignmentTarget returned
+				if target != nil && len(c.Call.Args) > 1 {
+					if tc, i := resultOf(resolveLocal(c.Call.Args[1])); tc == target.(*ssa.Call) && i == 0 {
+						appendStore = in
+					}
+				}
+			}
+
+			if isMarkerPush(in) {
+				push = in
+			}
+		})
+
+		// the repeat point: the Mark whose value is the operand of the backward Branch
+		var repeat *ssa.Call
+
+		allInstrs(fn, func(in ssa.Instruction) {
+			if emitOf(in) != opBranch {
+				return
+			}
+
+			c := in.(*ssa.Call)
+			if len(c.Call.Args) < 3 {
+				return
+			}
+
+			sl, ok := c.Call.Args[2].(*ssa.Slice)
+			if !ok {
+				return
+			}
+
+			allInstrs(fn, func(i2 ssa.Instruction) {
+				if st, ok := i2.(*ssa.Store); ok {
+					if ia, ok := st.Addr.(*ssa.IndexAddr); ok && ia.X == sl.X {
+						if mi, ok := st.Val.(*ssa.MakeInterface); ok {
+							for _, m := range marks {
+								if resolveLocal(mi.X) == ssa.Value(m) {
+									repeat = m
+								}
+							}
+						}
+					}
+				}
+			})
+		})
+
+		switch {
+		case target == nil || appendStore == nil || repeat == nil:
+			r.Anchor("R-C10-6", "assignmentTarget / Append(increment store) / the backward Branch's Mark in iterationFor")
+		case truncate == nil || !instrDominates(target, truncate) || !instrReachableFrom(truncate, repeat) || instrReachableFrom(repeat, truncate):
+			r.Violate("R-C10-6", key, w.pos(target.Pos()), "the 'let' marker that assignmentTarget puts into the stream for the increment clause is left ahead of the loop's repeat point: it is pushed once, while the DropToMarker at the end of the increment store code runs every iteration and, from the second one on, drops every marker down to the call frame (an enclosing try's included)")
+		case push == nil || !instrDominates(repeat, push) || !instrReachableFrom(push, appendStore):
+			r.Violate("R-C10-6", key, w.pos(appendStore.Pos()), "the increment store code (which ends in DropToMarker let) is appended inside the loop without a Push of the marker inside the loop")
+		default:
+			r.Discharge("R-C10-6", key, w.pos(appendStore.Pos()), "the marker is truncated out before the repeat point and pushed again before the increment code")
+		}
+	}
+
+	if fn := fnOf("Compiler.compileFor"); fn == nil {
+		r.Anchor("R-C10-6", "compiler.Compiler.compileFor")
+	} else {
+		key := "compiler.Compiler.compileFor|bare DropToMarker for the range form only"
+
+		var iter ssa.Instruction
+
+		allInstrs(fn, func(in ssa.Instruction) {
+			if c, ok := in.(*ssa.Call); ok && strings.HasSuffix(callID(c.Common()), "Compiler.iterationFor") {
+				iter = in
+			}
+		})
+
+		bad := ""
+
+		allInstrs(fn, func(in ssa.Instruction) {
+			var cc *ssa.CallCommon
+
+			switch x := in.(type) {
+			case *ssa.Defer:
+				cc = x.Common()
+			case *ssa.Call:
+				cc = x.Common()
+			default:
+				return
+			}
+
+			if callID(cc) != "internal/language/bytecode.ByteCode.Emit" {
+				return
+			}
+
+			if k, isC := constInt(cc.Args[1]); !isC || k != opDropToMarker {
+				return
+			}
+
+			if iter != nil && instrReachableFrom(in, iter) {
+				bad = w.pos(in.Pos())
+			}
+		})
+
+		switch {
+		case iter == nil:
+			r.Anchor("R-C10-6", "call of iterationFor in compileFor")
+		case bad != "":
+			r.Violate("R-C10-6", key, bad, "a DropToMarker without a marker name is emitted (or deferred) on the path that compiles the clause form of for: that form removes the init clause's marker itself, so the extra one takes the marker below it -- an enclosing try's")
+		default:
+			r.Discharge("R-C10-6", key, w.pos(iter.Pos()), "no bare DropToMarker on the path to iterationFor")
+		}
+	}
 }
